@@ -94,7 +94,9 @@ pub fn into_bytes_incircuit(
         BigUint(big) => {
             let mut bytes = std_lib.biguint().to_le_bytes(layouter, big)?;
 
-            bytes[n..]
+            // `n` may exceed the length of the decomposition, in which case there is
+            // nothing to check.
+            bytes[n.min(bytes.len())..]
                 .iter()
                 .try_for_each(|b| std_lib.assert_equal_to_fixed(layouter, b, 0u8))?;
 
